@@ -213,6 +213,14 @@ func VerifC11Concurrent() {
 		}
 	}
 	source := &c10Source{fs: src, opens: map[string]int{}, faultRead: -1, watch: "f"}
+	if verifParam("FAULTS") != 0 && !different {
+		// optionally the first fill fails (its source read fails once): the openers queued behind it fill again,
+		// still one at a time
+		if k := verifChoice("failing-read", 2); k == 1 {
+			source.faultRead = 0
+			verifTag("fault", "first source read fails")
+		}
+	}
 	storeMem, err := mem.NewFS()
 	verifAssert(err == nil, "NewFS")
 	cfs, err := cache.NewReadOnlyFS(source, c11StoreRemovable{&c11Store{fs: storeMem, faultAt: -1}}, cache.ReadOnlyOptions{})
@@ -239,10 +247,16 @@ func VerifC11Concurrent() {
 	}
 	wg.Wait()
 	verifReach("all-returned")
+	failed := 0
 	for i := 0; i < n; i++ {
+		if errs[i] != nil && source.faultRead == 0 {
+			failed++ // the open whose fill hit the injected fault
+			continue
+		}
 		verifAssert(errs[i] == nil, "a concurrent first open failed")
 		verifAssert(c10Equal(results[i], datas[i]), "a concurrent first open yielded a partial or mixed file")
 	}
+	verifAssert(failed <= 1, "more than one open failed although only one source read failed")
 	if different {
 		// and what was cached is what later opens serve
 		for i := 0; i < n; i++ {
